@@ -14,18 +14,12 @@ import (
 func ZZ_C18_ChannelStateRecycle() {
 	conn := &zzConn{}
 	q := zzNewQueue()
-	s := &channelState{
-		ctx:            &context{CancelContext: zzNewCtx(), conn: conn},
-		conn:           conn,
-		client:         zzverif.Bool(),
-		initWindow:     zzverif.Int32(),
-		sendWindowWait: make(chan struct{}, 1),
-		recvQueue:      q,
-	}
+	// a state as the real constructor builds it, then driven into an arbitrary condition
+	s := newChannelState(conn, zzverif.Bool(), bin.Bin128{}, zzverif.Int32())
+	s.recvQueue = q
 	copy(s.id[0][:], zzverif.Bytes(8))
 	s.opened.Store(zzverif.Bool())
 	s.closed.Store(zzverif.Bool())
-	s.closedUser.Store(zzverif.Bool())
 	s.sendWindow.Store(zzverif.Int32())
 	s.recvBytes.Store(zzverif.Int32())
 	s.sender = newChanSender(s, conn)
@@ -53,7 +47,7 @@ func ZZ_C18_ChannelStateRecycle() {
 	n := newChannelState(conn2, true, id, w)
 	zzverif.Assert(n == s, "pool-hands-out-the-released-state")
 	zzverif.Assert(n.id == id && n.conn == conn2 && n.client && n.initWindow == w, "constructor fields")
-	zzverif.Assert(!n.opened.Load() && !n.closed.Load() && !n.closedUser.Load(), "recycled channel state keeps open/closed flags")
+	zzverif.Assert(!n.opened.Load() && !n.closed.Load(), "recycled channel state keeps open/closed flags")
 	zzverif.Assert(n.sendWindow.Load() == w, "recycled channel state keeps a send window")
 	zzverif.Assert(n.recvBytes.Load() == 0, "recycled channel state keeps a receive counter")
 	zzverif.Assert(len(n.sendWindowWait) == 0, "recycled channel state keeps a wake-up token")
